@@ -3,6 +3,7 @@ import Emg3dVerif.Drv.C05
 import Emg3dVerif.Drv.C02
 import Emg3dVerif.Drv.C03
 import Emg3dVerif.Drv.C04
+import Emg3dVerif.Drv.C01
 open Emg
 
 def handle (ws : List String) : String :=
@@ -15,6 +16,7 @@ def handle (ws : List String) : String :=
       else if w == "gs" || w == "smoothing" then Drv03.handle ws
       else if w == "ldlt" then Drv03.handleLdlt ws
       else if w == "restrict" || w == "prolong" || w == "rweights" || w == "rparam" || w == "cgrid" then Drv04.handle ws
+      else if w == "solve" then Drv01.handle ws
       else none
     r.getD "bad-op"
 
